@@ -282,6 +282,13 @@ type GoText string
 func (t GoText) Upper() string    { return strings.ToUpper(string(t)) }
 func (t *GoText) Append(s string) { *t += GoText(s) }
 
+type goNamedMap map[string]string
+type goNamedSlice []int64
+type goCelsius float64
+type goMapper func(string) string
+type goPoint struct{ X, Y int64 }
+type goHolder struct{ P *int64 }
+
 // scriptValues: source text of script-side argument values
 var goconvValues = []string{
 	"nil", "true", "false", "0", "1", "-1", "127", "128", "300", "65", "233", "2147483648", "-9223372036854775807", "1.5", "-2.0", "1e10",
@@ -769,6 +776,128 @@ func streamGoConv(o *Out, r *rand.Rand, n int, thorough bool) {
 					o.Fail(Failure{Oracle: "go-callbacks", Key: "goconv-callback-error-late:" + sh.name, Input: in,
 						Detail: fmt.Sprintf("invocation %d of the callback fails but the Go function went on (progress marker %d)", when, calls)})
 				}
+			}
+		}
+	}
+	// (4c) a Go value handed to a parameter of another named type with the same underlying type arrives as Go's own
+	// conversion delivers it (same storage: maps, slices, pointers; same nil-ness; functions callable), and there is no
+	// conversion between T and *T: such calls fail
+	{
+		m := map[string]string{"a": "1"}
+		sl := []int64{1, 2, 3}
+		fl := 1.5
+		pt := goPoint{1, 2}
+		pp := &goPoint{3, 4}
+		x5 := int64(5)
+		np := new(int64)
+		h := &goHolder{}
+		e := env.NewEnv()
+		_ = e.Define("m", m)
+		_ = e.Define("nm", map[string]string(nil))
+		_ = e.Define("sl", sl)
+		_ = e.Define("nsl", []int64(nil))
+		_ = e.Define("fp", &fl)
+		_ = e.Define("up", func(s string) string { return strings.ToUpper(s) })
+		_ = e.Define("pt", pt)
+		_ = e.Define("pp", pp)
+		_ = e.Define("x5", x5)
+		_ = e.Define("np", np)
+		_ = e.Define("h", h)
+		_ = e.Define("put", func(d goNamedMap) { d["new"] = "v" })
+		_ = e.Define("isnilmap", func(d goNamedMap) bool { return d == nil })
+		_ = e.Define("isnilslice", func(d goNamedSlice) bool { return d == nil })
+		_ = e.Define("set0", func(x goNamedSlice) { x[0] = 99 })
+		_ = e.Define("heat", func(c *goCelsius) { *c += 1 })
+		_ = e.Define("apply", func(f goMapper, s string) string { return f(s) })
+		_ = e.Define("move", func(p *goPoint) { p.X = 10 })
+		_ = e.Define("incr", func(p *int64) { *p++ })
+		_ = e.Define("show", func(p goPoint) int64 { return p.X })
+		_ = e.Define("sum", func(xs ...int64) int64 {
+			t := int64(0)
+			for _, v := range xs {
+				t += v
+			}
+			return t
+		})
+		named := []struct {
+			src   string
+			check func(res interface{}, err error) string // "" = fine
+		}{
+			{"put(m)", func(res interface{}, err error) string {
+				if err != nil || m["new"] != "v" {
+					return fmt.Sprintf("the callee's store into the map is lost: Go map now %v, err %v", m, err)
+				}
+				return ""
+			}},
+			{"isnilmap(nm)", func(res interface{}, err error) string {
+				if err != nil || res != true {
+					return fmt.Sprintf("a nil map arrives non-nil: %v, err %v", res, err)
+				}
+				return ""
+			}},
+			{"isnilslice(nsl)", func(res interface{}, err error) string {
+				if err != nil || res != true {
+					return fmt.Sprintf("a nil slice arrives non-nil: %v, err %v", res, err)
+				}
+				return ""
+			}},
+			{"set0(sl)", func(res interface{}, err error) string {
+				if err != nil || sl[0] != 99 {
+					return fmt.Sprintf("the callee's store into the slice is lost: Go slice now %v, err %v", sl, err)
+				}
+				return ""
+			}},
+			{"heat(fp)", func(res interface{}, err error) string {
+				if err != nil || fl != 2.5 {
+					return fmt.Sprintf("the callee's store through the pointer is lost: value now %v, err %v", fl, err)
+				}
+				return ""
+			}},
+			{"apply(up, \"a\")", func(res interface{}, err error) string {
+				if err != nil || res != "A" {
+					return fmt.Sprintf("a Go func handed to a named func type: result %v, err %v", res, err)
+				}
+				return ""
+			}},
+			{"move(pt)", func(res interface{}, err error) string {
+				if err == nil {
+					return "a struct value was accepted for a pointer parameter (Go has no such conversion)"
+				}
+				return ""
+			}},
+			{"incr(x5)", func(res interface{}, err error) string {
+				if err == nil {
+					return "an int64 was accepted for a *int64 parameter"
+				}
+				return ""
+			}},
+			{"show(pp)", func(res interface{}, err error) string {
+				if err == nil {
+					return "a pointer was accepted for a struct parameter"
+				}
+				return ""
+			}},
+			{"sum(1, np, 1)", func(res interface{}, err error) string {
+				if err == nil {
+					return fmt.Sprintf("a *int64 was accepted in an ...int64 tail: result %v", res)
+				}
+				return ""
+			}},
+			{"h.P = x5", func(res interface{}, err error) string {
+				if err == nil {
+					return "an int64 was stored into a *int64 field"
+				}
+				return ""
+			}},
+		}
+		for _, c := range named {
+			res, err, p := execGuard(e, c.src)
+			o.Sum.Evaluations++
+			o.Sum.Hist["named-type-param"]++
+			if p != nil {
+				o.Fail(Failure{Oracle: "no-panic", Key: "goconv-panic:named", Input: c.src, Detail: fmt.Sprint(p)})
+			} else if msg := c.check(res, err); msg != "" {
+				o.Fail(Failure{Oracle: "go-conversion", Key: "goconv-named:" + c.src, Input: c.src + "   (Go values bound by the host; parameter of a named type / pointer mismatch)", Detail: msg})
 			}
 		}
 	}
